@@ -136,7 +136,7 @@ vars == <<rc, route, rlay, vlay, rrlay>>
 Env == [ keep |-> rc.keep, names |-> Names, static |-> (IF rc.to = "default" THEN StaticTabD ELSE StaticTab),
          resolv |-> Resolv, rx |-> [sip |-> rc.ruri = "regex", abs |-> FALSE], tohost |-> ToHost(rc.to),
          L |-> AllTrans(rc.lport)["p1.t1"], trans |-> <<AllTrans(rc.lport)["p1.t1"], AllTrans(rc.lport)["p1.t2"], AllTrans(rc.lport)["p1.t3"]>>,
-         all |-> AllTrans(rc.lport), mustrr |-> rc.mustrr, recv |-> rc.recv, src |-> [ip |-> "10.0.5.5", port |-> 40000],
+         all |-> AllTrans(rc.lport), mustrr |-> rc.mustrr, recv |-> rc.recv, src |-> [ip |-> "10.0.5.5", port |-> 24000],
          learned |-> CASE rc.learn = "none" -> <<>>
                        [] rc.learn = "hop.p1" -> ("10.0.1.1" :> "p1.t1") @@ ("10.0.1.2" :> "p1.t2") @@ ("10.0.1.4" :> "p1.t1") @@ ("n1.example.com" :> "p1.t1")
                        [] rc.learn = "hop.p1real" -> ("10.0.1.1" :> "p1.t3") @@ ("10.0.1.2" :> "p1.t3") @@ ("10.0.1.4" :> "p1.t3") @@ ("10.0.1.5" :> "p1.t3")
